@@ -1600,8 +1600,8 @@ def try_propagation(body, cs, tm=None):
             return {"kind": "other", "detail": "Err arm reaches a non-Err return: %s" % bad[:2]}
         return {"kind": "propagated", "detail": "Err arm bb%d -> return" % tgt, "switch": bb, "err_target": tgt, "ok_target": switch_target(t, names, "Continue" if is_branch else "Ok")}
     rt = tm.return_term()
-    if contains(rt, lambda s: s == key):
-        return {"kind": "returned", "detail": "flows into the return value"}
+    if rt == key or (rt[0] == "phi" and key in rt[1]):
+        return {"kind": "returned", "detail": "is the return value"}
     return {"kind": "other", "detail": "result not propagated with `?`/match-return"}
 
 
@@ -1780,3 +1780,41 @@ def forall_loop(body, inner_pred, tm=None):
     if "Result<" in dest_ty and pr["kind"] != "propagated":
         problems.append("Err of the per-element test is not propagated: %s" % pr["detail"])
     return {"ok": not problems, "problems": problems, "inner": inner, "next": nx, "collection": recv}
+
+
+def error_flow(F, body, cs, tm=None):
+    """Follow the Result returned by `cs` through Result adaptors to its sink.
+    Returns dict(ok=bool, detail=str): ok iff the Err reaches the caller and every map_err on the
+    way keeps the source error (a constructor, or a closure whose result mentions its argument)."""
+    tm = tm or Terms(body)
+    cur_cs = cs
+    steps = []
+    for _ in range(8):
+        pr = try_propagation(body, cur_cs, tm)
+        if pr["kind"] in ("propagated", "returned"):
+            steps.append(pr["kind"])
+            return {"ok": True, "detail": " -> ".join(steps)}
+        ct = tm.call_term(cur_cs.term, cur_cs.bb)
+        nxt = None
+        for c2 in body.calls():
+            if not c2.callee or not c2.args:
+                continue
+            m = re.search(r"std::result::Result::<T, E>::(map|map_err|and_then|inspect|inspect_err)$", c2.callee)
+            if m and tm.operand(c2.args[0], c2.bb) == ct:
+                nxt = (c2, m.group(1))
+        if nxt is None:
+            return {"ok": False, "detail": " -> ".join(steps + [pr["detail"]])}
+        c2, kind = nxt
+        if kind == "map_err":
+            f = tm.operand(c2.args[1], c2.bb)
+            keeps = f[0] == "fn"
+            if f[0] == "closure" and f[1] in F.bodies:
+                crt = Terms(F.bodies[f[1]]).return_term()
+                keeps = contains(crt, lambda s: s == ("arg", 2))
+            if not keeps:
+                return {"ok": False, "detail": " -> ".join(steps + ["map_err(%s) discards the source error" % short(f)[:80]])}
+            steps.append("map_err(keeps source)")
+        else:
+            steps.append(kind)
+        cur_cs = c2
+    return {"ok": False, "detail": "adaptor chain too long"}
